@@ -80,6 +80,17 @@ theorem names_bound (s : Suite) (hs : NoShadowing s) (ho : RefsOwned s) :
     · simp at hr
   · exact itemRefs_ok hs ho hf hit hr
 
+/-- **Exception classes.** Every class named by a `with pytest.raises(c)` of an emitted function that is
+not a builtin is bound, under its own name and to that class, by a module-level `from <module> import <name>`
+of the emitted file — whichever module defines it: another module, or the module under test itself, where
+the public-names import does NOT cover it when the class name starts with an underscore. -/
+theorem raises_class_imported (s : Suite) :
+    ∀ f ∈ fns s, ∀ c st, Item.raises c st ∈ f.items → c.module ≠ "builtins" →
+      (c.name, clsObj s.sutName c.module c.name) ∈ moduleEnv s ∧ c.resolvable = true := by
+  intro f hf c st hit hm
+  exact ⟨excImports_sub_moduleEnv (mem_excImportTops_binds (usedExc_mem_all hf hit) hm),
+    allUsedExc_resolvable (usedExc_mem_all hf hit)⟩
+
 /-- The expected pytest report of the emitted file. -/
 def expectedReport (s : Suite) : Option (List Outcome) :=
   some ((fns s).map fun f => if f.xfail then Outcome.xfailed else Outcome.passed)
@@ -182,6 +193,42 @@ theorem exception_head_of_mro_cex :
     (excImportTops "m" [importableBase nestedMro]).all (·.importOk) = true ∧
     importableBase nestedMro = ⟨"m", "MyBase", true⟩ := by decide +kernel
 
+/-- A tempting simplification of the exception imports: leave out the classes defined by the module under
+test, "the public-names import covers them".  It does not cover a PRIVATE class (`_Full`): the function
+names it in `pytest.raises(_Full)`, no module-level statement binds it, the test fails with a NameError. -/
+def excImportTopsSkipSut (sut : String) (used : List Cls) : List Top :=
+  excImportTops sut (used.filter (fun c => c.module != sut))
+
+/-- `var_0 = m_.Stack(1); var_0.push(7); var_0.push(8)` — the second `push` raises the module's private
+`_Full`; exported with `no_xfail`. -/
+def privateExcWitness (noXfail : Bool) (acc : List String) : Suite :=
+  { sutName := "m", pkgRoot := "m", alias := "m_", publicNames := ["Empty", "Stack"], seed := none,
+    noXfail := noXfail,
+    tests := [[
+      { bound := some "var_0", simpleAssign := true, uses := ["m_", "Stack"], reads := [],
+        grefs := [("m_", .sut)], asserts := [], acc := some [], exc := none },
+      { bound := none, simpleAssign := false, uses := ["var_0", "push"], reads := ["var_0"],
+        grefs := [], asserts := [], acc := some acc,
+        exc := some [⟨"m", "_Full", true⟩, ⟨"builtins", "Exception", true⟩, baseExc] } ]] }
+
+/-- The module-level names of the file the simplified rule would write (no seed). -/
+def envSkipSut (s : Suite) : List Binding :=
+  ((if needsPytest s then [ ({ needs := [], binds := [pytestRef], importOk := true } : Top) ] else [])
+    ++ sutImportTops s ++ excImportTopsSkipSut s.sutName (allUsedExc s) ++ fnTops s).flatMap Top.binds
+
+/-- Under both policies that wrap the statement (`--no-xfail`; exception declared by the callable) the
+simplified rule leaves `_Full` unbound and pytest reports the test failed, while the writer's rule binds it and
+the test passes.  A PUBLIC class of the module under test hides the difference (`Empty`). -/
+theorem exception_import_skipping_sut_cex :
+    (∀ w ∈ [privateExcWitness true [], privateExcWitness false ["_Full"]],
+      lookup (envSkipSut w) "_Full" = none ∧
+      (fns w).map (outcome w (envSkipSut w) (fun st => st.exc) (fun _ => true)) = [.failed] ∧
+      lookup (moduleEnv w) "_Full" = some (.sutAttr "_Full") ∧
+      runFile w (fun st => st.exc) (fun _ => true) = some [.passed]) ∧
+    ((excImportTopsSkipSut "m" [⟨"m", "Empty", true⟩]).isEmpty = true ∧
+      lookup (moduleEnv (privateExcWitness true [])) "Empty" = some (.sutAttr "Empty")) := by
+  decide +kernel
+
 /-! ## Non-vacuity: the hypotheses are satisfiable on non-trivial suites -/
 
 /-- xfail + `pytest.raises(MyBase)` for a nested exception + float assertion + seed fixture. -/
@@ -203,5 +250,7 @@ example : (fns demo).map (·.xfail) = [false, true] := by decide +kernel
 example : ∀ t ∈ demo.tests, freeReads t = [] := by decide +kernel
 example : Consistent (moduleEnv demo) := by unfold Consistent; decide +kernel
 example : runFile floatWitness (fun st => st.exc) (fun _ => true) = some [.passed] := by decide +kernel
+/-- `raises_class_imported` is not vacuous: the witness has a wrapped statement naming a private class. -/
+example : (fns (privateExcWitness true [])).map usedExc = [[⟨"m", "_Full", true⟩]] := by decide +kernel
 
 end PynguinModel.ExportImports
